@@ -325,8 +325,9 @@ def finish(pid, prop, tier, seed, binfo, cases, agg, covered, models_used, done_
         'wall_s': round(wall, 2),
         'violations': len(report),
     }
-    os.makedirs(os.path.join(ROOT, 'evidence'), exist_ok=True)
-    json.dump(ev, open(os.path.join(ROOT, 'evidence', pid + '.json'), 'w'), indent=1, ensure_ascii=False, default=str)
+    evdir = os.path.join(ROOT, 'evidence' if build.REPO == '/repo' else 'alt-evidence')      # runs on a scratch copy never touch the evidence
+    os.makedirs(evdir, exist_ok=True)
+    json.dump(ev, open(os.path.join(evdir, pid + '.json'), 'w'), indent=1, ensure_ascii=False, default=str)
     for l in lines: print(l)
     print('%s %s: %d cases, %d paths (%d infeasible pruned), %d solver calls (%.1fs), %d native replays, %.1fs wall%s' % (
         pid, tier, agg['cases_done'], agg['paths'], agg['infeasible'], st.get('solver_calls', 0), st.get('solver_s', 0.0),
@@ -334,11 +335,11 @@ def finish(pid, prop, tier, seed, binfo, cases, agg, covered, models_used, done_
     if report:
         for s in inconclusive: print('INCONCLUSIVE (besides the violations): ' + s)
         if inconclusive:
-            json.dump({'errors': agg['errors'][:10], 'faults': agg['faults'][:10]}, open(os.path.join(ROOT, '.cache', 'last_inconclusive_%s.json' % pid), 'w'), indent=1, default=str)
+            json.dump({'errors': agg['errors'][:10], 'faults': agg['faults'][:10]}, open(os.path.join(build.CACHE, 'last_inconclusive_%s.json' % pid), 'w'), indent=1, default=str)
         return 1
     if inconclusive:
         for s in inconclusive: print('INCONCLUSIVE: ' + s)
-        dbg = os.path.join(ROOT, '.cache', 'last_inconclusive_%s.json' % pid)
+        dbg = os.path.join(build.CACHE, 'last_inconclusive_%s.json' % pid)
         json.dump({'errors': agg['errors'][:10], 'faults': agg['faults'][:10]}, open(dbg, 'w'), indent=1, default=str)
         print('details: ' + dbg)
         return 2
